@@ -127,11 +127,18 @@ func cmdCheck(args []string) int {
 		return 0
 	}
 	defer L.Close()
-	tmo := 20000
+	tmo := 10000
+	budget := 4 * time.Minute
 	if *tier == "thorough" {
-		tmo = 120000
+		tmo = 60000
+		budget = 45 * time.Minute
 	}
-	r := &Runner{L: L, solver: *solver, timeoutMs: tmo, workers: *workers, audit: *tier == "thorough"}
+	if b := os.Getenv("ZSYM_BUDGET_S"); b != "" {
+		if v, err := strconv.Atoi(b); err == nil {
+			budget = time.Duration(v) * time.Second
+		}
+	}
+	r := &Runner{L: L, solver: *solver, timeoutMs: tmo, workers: *workers, audit: *tier == "thorough", deadline: start.Add(budget)}
 	c := &CheckCtx{P: p, Tier: *tier, Seed: seed, L: L, R: r, Extra: map[string]interface{}{}}
 	jobs := p.Jobs(*tier, seed)
 	c.Results = r.RunJobs(jobs)
